@@ -233,6 +233,26 @@ def body(check):
     over_cond_paths(check, _body_paths)
 
 
+def face_buffer_dtype(check, proj, classes):
+    """the face arrays are floating point whatever the dtype of the cell data: a buffer whose dtype follows the data
+    (zeros_like, dtype=data[i].dtype) truncates the extrapolated states of integer-typed data (np.arange, unit impulses
+    built with np.eye(n, dtype=int), np.where(..., 1, 0)) -- no scheme is then exact on linear data"""
+    from ..pointwise import dtype_follow
+    n = bad = 0
+    for c in classes:
+        f = proj.resolve(proj.cls("xnum." + c), "interp_face")
+        if f is None:
+            continue
+        n += 1
+        hits = dtype_follow(proj, f)
+        if hits:
+            bad += 1
+            ln, buf, store = hits[0]
+            check.violation("DTYPE-FOLLOW", f.qualname, "the face buffer `%s` takes the dtype of the cell data and receives `%s`: for integer-typed cell data the face states are truncated silently" % (buf, store), "%s:%d" % (f.module.relpath, ln), key="dtype-" + c)
+    if n and not bad:
+        check.ok("DTYPE-FOLLOW", "%d reconstruction classes" % n, "no face buffer inherits the dtype of the cell data while receiving extrapolated (floating-point) states", nontrivial=False)
+
+
 def _body_paths(check):
     proj = check.proj
     check.explanation = ("static analysis: the slice code of fvm1d (gradients, periodic closure, calc_bc, calc_res), mesh1d "
@@ -251,6 +271,7 @@ def _body_paths(check):
             continue       # first order by definition: E1-ADJ is its clause
         check.guarded("LIN-EXACT", "xnum." + c, lambda: exactness(check, proj, c))
     check.guarded("MUSCL-ARGS", "xnum.muscl", lambda: muscl_args(check, proj))
+    check.guarded("DTYPE-FOLLOW", "xnum", lambda: face_buffer_dtype(check, proj, classes))
     # "... and MUSCL with every limiter": exactness on linear data uses phi(s,s) = s (on the statement's scale
     # range), phi(0,0) = 0 and oddness of each provided limiter -- the same obligations as C12, kept here for
     # these three clauses only
